@@ -1,3 +1,211 @@
-From Orso Require Import Model.C11 Proofs.C11.
-Theorem C11_stub : True. Proof. exact stub. Qed.
-Print Assumptions C11_stub.
+(* C11 - Arrow interchange preserves rows, nulls, order and column typing.
+   Property theorems only; each is closed by [exact] of a lemma from Proofs/C11.v and followed by
+   Print Assumptions.
+
+   FULL PROPERTY (properties.jsonl): converting Arrow tables to a DataFrame yields one row per Arrow row, in
+   order, across any number of tables and any batch chunking (empty tables included), cut to the requested
+   size, WITH EVERY CELL EQUAL TO THE ARROW VALUE (nulls as None; a NaN may surface as None) AND INTEGERS
+   STAYING EXACT INTEGERS; DataFrame -> Arrow (optionally limited) -> DataFrame returns the same rows and
+   column names; column typing round-trips (except STRUCT, JSONB) with precision, scale, element type; an Arrow
+   field's name and nullability carry over.
+
+   PARTIAL BY CONSTRUCTION: the clause in capitals (what pyarrow/pandas do to a cell inside
+   compiled.process_table, and what pyarrow.Table.from_arrays stores) is NOT proved.  process_table and
+   from_arrays are oracles; each theorem about rows carries, as an explicit premise, that process_table
+   returns the rows of the table for every batch size >= 1 (resp. that from_arrays holds the columns it is
+   given).  That premise is decided by the differential run only, and is KNOWN to fail on the implementation
+   for an integer column containing a null (F-C11-2) and for a numeric list column containing a null element
+   (F-C11-5); the run excludes exactly those cells. *)
+From Coq Require Import List NArith ZArith Bool.
+From Orso Require Import Gen.C11_ArrowMap Model.C11 Proofs.C11.
+Import ListNotations.
+
+(* ---------------------------------------------------------------------------------------------- *)
+(* rows: Arrow tables -> rows                                                                       *)
+(* ---------------------------------------------------------------------------------------------- *)
+
+(* For every list of tables (empty tables anywhere), every size and every k: the first k calls of next() on
+   the iterator from_arrow returns deliver, in order, the first k rows of [limit size (all rows of all tables,
+   concatenated)] - one row per Arrow row - and StopIteration (None) from then on, for ever. *)
+Theorem C11_stream_next_calls :
+  forall (R T : Type) (process_table : T -> N -> list R) (rows_of : T -> list R),
+  (forall t b, (1 <= b)%N -> process_table t b = rows_of t) ->
+  forall (tables : list T) (size : option N) (k : nat),
+  nexts process_table k (from_arrow_iter tables size) =
+  map Some (firstn k (limit size (concat (map rows_of tables)))) ++
+  repeat None (k - length (limit size (concat (map rows_of tables)))).
+Proof. exact stream_next_calls. Qed.
+Print Assumptions C11_stream_next_calls.
+
+(* What a for loop / list() collects from that iterator: exactly the rows, cut to the size. *)
+Theorem C11_stream_collected :
+  forall (R T : Type) (process_table : T -> N -> list R) (rows_of : T -> list R),
+  (forall t b, (1 <= b)%N -> process_table t b = rows_of t) ->
+  forall (tables : list T) (size : option N) (fuel : nat),
+  drain process_table fuel (from_arrow_iter tables size) = firstn fuel (limit size (concat (map rows_of tables))) /\
+  (length (limit size (concat (map rows_of tables))) <= fuel ->
+   drain process_table fuel (from_arrow_iter tables size) = limit size (concat (map rows_of tables))).
+Proof. exact stream_collected. Qed.
+Print Assumptions C11_stream_collected.
+
+(* "cut to the requested size": no size (or 0, which from_arrow reads as no size) keeps everything, a size
+   n >= 1 keeps the first n rows, i.e. min(n, N) of them. *)
+Theorem C11_size_limit_meaning :
+  forall (A : Type) (l : list A),
+  limit None l = l /\ limit (Some 0%N) l = l /\
+  forall n, (1 <= n)%N -> limit (Some n) l = firstn (N.to_nat n) l /\
+                          length (limit (Some n) l) = Nat.min (N.to_nat n) (length l).
+Proof. exact limit_meaning. Qed.
+Print Assumptions C11_size_limit_meaning.
+
+(* Zero-row tables anywhere in the stream change nothing (F-C11-1 was the failure of this). *)
+Theorem C11_zero_row_tables_invisible :
+  forall (R T : Type) (process_table : T -> N -> list R) (rows_of : T -> list R),
+  (forall t b, (1 <= b)%N -> process_table t b = rows_of t) ->
+  forall (tables : list T) (size : option N) (k : nat),
+  nexts process_table k (from_arrow_iter tables size) =
+  nexts process_table k
+    (from_arrow_iter (filter (fun t => match rows_of t with [] => false | _ => true end) tables) size).
+Proof. exact zero_row_tables_invisible. Qed.
+Print Assumptions C11_zero_row_tables_invisible.
+
+(* ---------------------------------------------------------------------------------------------- *)
+(* rows: DataFrame -> arrow(size) -> DataFrame                                                      *)
+(* ---------------------------------------------------------------------------------------------- *)
+
+(* to_arrow transposes the first [size] rows into arrays (zip( *rows), or one empty array per column when there
+   is no row) and from_arrow reads them back: the rows delivered are exactly [head size rows], in order, then
+   StopIteration.  Rows are rectangular with at least one column (a frame without columns cannot keep its rows
+   in Arrow).  Premises: the two oracles. *)
+Theorem C11_round_trip_rows :
+  forall (C T Nm : Type) (process_table : T -> N -> list (list C)) (rows_of : T -> list (list C))
+         (from_arrays : list (list C) -> list Nm -> T),
+  (forall t b, (1 <= b)%N -> process_table t b = rows_of t) ->
+  (forall cols names n, length cols = length names -> Forall (fun c => length c = n) cols ->
+                        rows_of (from_arrays cols names) = zip_star cols) ->
+  forall (rows : list (list C)) (names : list Nm) (size : option Z) (k : nat),
+  1 <= length names -> Forall (fun r => length r = length names) rows ->
+  nexts process_table k (from_arrow_iter [from_arrays (to_arrow_cols rows (length names) size) names] None) =
+    map Some (firstn k (head size rows)) ++ repeat None (k - length (head size rows)) /\
+  drain process_table k (from_arrow_iter [from_arrays (to_arrow_cols rows (length names) size) names] None) =
+    firstn k (head size rows).
+Proof. exact round_trip_rows. Qed.
+Print Assumptions C11_round_trip_rows.
+
+(* "optionally limited": no size keeps all rows, size >= 0 the first size rows, a negative size all rows. *)
+Theorem C11_arrow_size_meaning :
+  forall (C : Type) (rows : list (list C)),
+  head None rows = rows /\
+  (forall z, (0 <= z)%Z -> head (Some z) rows = firstn (Z.to_nat z) rows) /\
+  (forall z, (z < 0)%Z -> head (Some z) rows = rows).
+Proof. exact head_meaning. Qed.
+Print Assumptions C11_arrow_size_meaning.
+
+(* ---------------------------------------------------------------------------------------------- *)
+(* column typing (over the tables regenerated from the running code into Gen/C11_ArrowMap.v)        *)
+(* ---------------------------------------------------------------------------------------------- *)
+
+(* Every Orso type other than STRUCT, JSONB, the _MISSING_TYPE placeholder (and ARRAY / DECIMAL, next two
+   theorems): arrow_field succeeds, keeps the name, and FlatColumn.from_arrow of that field is the same column
+   (type; no element type, precision, scale) with the field's nullability.  F-C11-4 (DATE) broke this. *)
+Theorem C11_type_round_trip_plain :
+  forall (t : N) (nm : list N) (nl : bool),
+  In t (map fst c11_type_names) ->
+  t <> ty_STRUCT -> t <> ty_JSONB -> t <> ty_MISSING_TYPE -> t <> ty_ARRAY -> t <> ty_DECIMAL ->
+  exists f, arrow_field (mkCol nm t None None None nl) = Ok f /\ fname f = nm /\
+            from_arrow_field false f = Ok (mkCol nm t None None None (fnullable f)).
+Proof. exact type_round_trip_plain. Qed.
+Print Assumptions C11_type_round_trip_plain.
+
+(* ARRAY<e> for every element type OrsoTypes.from_name accepts, with the same three exceptions. *)
+Theorem C11_type_round_trip_array :
+  forall (e : N) (nm : list N) (nl : bool),
+  In e accepted_elems -> e <> ty_STRUCT -> e <> ty_JSONB -> e <> ty_MISSING_TYPE ->
+  exists f, arrow_field (mkCol nm ty_ARRAY (Some e) None None nl) = Ok f /\ fname f = nm /\
+            from_arrow_field false f = Ok (mkCol nm ty_ARRAY (Some e) None None (fnullable f)).
+Proof. exact type_round_trip_array. Qed.
+Print Assumptions C11_type_round_trip_array.
+
+(* DECIMAL(p, s) for all 0 <= s <= p <= 38, p >= 1 (precision 0 does not exist in Arrow): same precision and
+   scale.  F-C11-3 (scale 0 -> 10) broke this. *)
+Theorem C11_type_round_trip_decimal :
+  forall (p s : Z) (nm : list N) (nl : bool),
+  (1 <= p <= 38)%Z -> (0 <= s <= p)%Z ->
+  exists f, arrow_field (mkCol nm ty_DECIMAL None (Some p) (Some s) nl) = Ok f /\ fname f = nm /\
+            from_arrow_field false f = Ok (mkCol nm ty_DECIMAL None (Some p) (Some s) (fnullable f)).
+Proof. exact type_round_trip_decimal. Qed.
+Print Assumptions C11_type_round_trip_decimal.
+
+(* The carve-out, stated positively: STRUCT and JSONB are carried as binary and come back as BLOB, the untyped
+   placeholder is carried as string and comes back as VARCHAR - as column types and as element types. *)
+Theorem C11_binary_carried_types :
+  forall (nm : list N) (nl : bool),
+  (exists f, arrow_field (mkCol nm ty_STRUCT None None None nl) = Ok f /\
+             from_arrow_field false f = Ok (mkCol nm ty_BLOB None None None (fnullable f))) /\
+  (exists f, arrow_field (mkCol nm ty_JSONB None None None nl) = Ok f /\
+             from_arrow_field false f = Ok (mkCol nm ty_BLOB None None None (fnullable f))) /\
+  (exists f, arrow_field (mkCol nm ty_MISSING_TYPE None None None nl) = Ok f /\
+             from_arrow_field false f = Ok (mkCol nm ty_VARCHAR None None None (fnullable f))) /\
+  (exists f, arrow_field (mkCol nm ty_ARRAY (Some ty_STRUCT) None None nl) = Ok f /\
+             from_arrow_field false f = Ok (mkCol nm ty_ARRAY (Some ty_BLOB) None None (fnullable f))) /\
+  (exists f, arrow_field (mkCol nm ty_ARRAY (Some ty_JSONB) None None nl) = Ok f /\
+             from_arrow_field false f = Ok (mkCol nm ty_ARRAY (Some ty_BLOB) None None (fnullable f))) /\
+  (exists f, arrow_field (mkCol nm ty_ARRAY (Some ty_MISSING_TYPE) None None nl) = Ok f /\
+             from_arrow_field false f = Ok (mkCol nm ty_ARRAY (Some ty_VARCHAR) None None (fnullable f))).
+Proof. exact binary_carried. Qed.
+Print Assumptions C11_binary_carried_types.
+
+(* An Arrow field's name and nullability carry over to the column built from it (any Arrow type that maps at
+   all, with or without mappable_as_binary) ... *)
+Theorem C11_field_name_nullability_carry :
+  forall (mab : bool) (f : afield) (c : column),
+  from_arrow_field mab f = Ok c -> cname c = fname f /\ cnullable c = fnullable f.
+Proof. exact from_arrow_field_carry. Qed.
+Print Assumptions C11_field_name_nullability_carry.
+
+(* ... and so do a whole schema's, in order (convert_arrow_schema_to_orso_schema, and the schema from_arrow
+   derives from the first table: this is "the same column names" of the DataFrame round trip). *)
+Theorem C11_schema_names_nullability_carry :
+  forall (fs : list afield) (cs : list column),
+  arrow_to_orso_schema fs = Ok cs ->
+  map cname cs = map fname fs /\ map cnullable cs = map fnullable fs /\ length cs = length fs.
+Proof. exact schema_names_carry. Qed.
+Print Assumptions C11_schema_names_nullability_carry.
+
+(* convert_orso_schema_to_arrow_schema names the fields after the columns (or their identities), in order. *)
+Theorem C11_arrow_schema_names :
+  forall (use_ids : bool) (cols : list (list N * column)) (fs : list afield),
+  orso_to_arrow_schema use_ids cols = Ok fs ->
+  map fname fs = map (fun ic => if use_ids then fst ic else cname (snd ic)) cols.
+Proof. exact arrow_schema_names. Qed.
+Print Assumptions C11_arrow_schema_names.
+
+(* ---------------------------------------------------------------------------------------------- *)
+(* non-vacuity                                                                                      *)
+(* ---------------------------------------------------------------------------------------------- *)
+
+(* the oracle premise is satisfiable (by the instance the correspondence evaluates), and on a stream with a
+   zero-row table in the middle and a cap inside the last table the iterator does what the theorem says *)
+Example C11_nonvacuous_stream :
+  (forall (t : list (list cell)) (b : N), (1 <= b)%N -> pt_rows t b = (fun x => x) t) /\
+  nexts pt_rows 5 (from_arrow_iter [[[CInt 1]; [CNone]]; []; [[CInt 3]; [CInt 4]]] (Some 3%N)) =
+    [Some [CInt 1]; Some [CNone]; Some [CInt 3]; None; None].
+Proof. split; reflexivity. Qed.
+
+Example C11_nonvacuous_round_trip :
+  (forall (t : list (list cell)) (b : N), (1 <= b)%N -> pt_cols t b = zip_star t) /\
+  to_arrow_cols [[CInt 1; CStr []]; [CInt 2; CNone]; [CInt 3; CNone]] 2 (Some 2%Z) = [[CInt 1; CInt 2]; [CStr []; CNone]] /\
+  drain pt_cols 9 (from_arrow_iter [to_arrow_cols [[CInt 1; CStr []]; [CInt 2; CNone]; [CInt 3; CNone]] 2 (Some 2%Z)] None) =
+    [[CInt 1; CStr []]; [CInt 2; CNone]] /\
+  to_arrow_cols ([] : list (list cell)) 2 None = [[]; []].
+Proof. repeat split; reflexivity. Qed.
+
+(* the witnesses of the fixed findings F-C11-3 and F-C11-4 *)
+Example C11_nonvacuous_types :
+  bind (arrow_field (mkCol [100%N] ty_DECIMAL None (Some 10%Z) (Some 0%Z) true)) (from_arrow_field false) =
+    Ok (mkCol [100%N] ty_DECIMAL None (Some 10%Z) (Some 0%Z) true) /\
+  In ty_DATE (map fst c11_type_names) /\
+  bind (arrow_field (mkCol [100%N] ty_DATE None None None true)) (from_arrow_field false) =
+    Ok (mkCol [100%N] ty_DATE None None None true) /\
+  In ty_INTEGER accepted_elems /\ In ty_DATE accepted_elems.
+Proof. vm_compute. repeat split; try reflexivity; tauto. Qed.
